@@ -161,7 +161,7 @@ func init() {
 		Expl: "Event-sequence analysis of the challenge derivation reachable from VerifierChip.Verify: the calls to the two transcript primitives (ObserveElement / GetChallenge) are extracted with their static call paths in control-flow order; every squeeze is identified by the challenge field that receives its result (result tagging by call path), every observation by the proof data it depends on; the collapsed sequence must equal plonky2's order; every event executes on every path inside full-range loops over the observed lists; the openings' content order (append-chain content-sequence analysis) is the reference order at both uses; ObserveElement must-stores an empty output buffer. The sponge arithmetic over arbitrary histories is not decided.",
 		Rule: "one obligation for the order, one per distinct event (binding/coverage), one for the openings order, one for the buffer reset"})
 	registerProp(&propDef{ID: "C01", Floor: 110, Rules: func(cx *Ctx) []Obligation {
-		obs := rulesC01Own(cx)
+		obs := append(rulesC01Own(cx), rulesConfigCoverage(cx, "C01/O1.4")...)
 		for _, f := range []func(*Ctx) []Obligation{rulesC11, rulesC12, rulesC13, rulesC14, rulesC16, rulesC17, rulesC20, rulesC06} {
 			obs = append(obs, f(cx)...)
 		}
@@ -196,7 +196,7 @@ func init() {
 	registerProp(&propDef{ID: "C13", Rules: rulesC13, Floor: 7,
 		Expl: "Presence and coverage only: per round and step the two coordinate equalities between the bit-selected claimed evaluation and the running evaluation; after the steps the two equalities against the final polynomial at the folded point; the invertibility assertions; coverage of all rounds. The domain point, combination and interpolation formulas are not decided.",
 		Rule: "one obligation per equality coordinate / assertion / loop coverage"})
-	registerProp(&propDef{ID: "C16", Rules: rulesC16, Floor: 3,
+	registerProp(&propDef{ID: "C16", Rules: func(cx *Ctx) []Obligation { return append(rulesC16(cx), rulesConfigCoverage(cx, "C16/O16.3")...) }, Floor: 5,
 		Expl: "Presence and coverage only: for every challenge round (full-range loop, count = Config.NumChallenges) an extension equality (both coordinates) between the vanishing value (depending on gates, wires, sigmas, Z, Z(next), partial products, public-input hash, challenges) and Z_H·quotient (from QuotientPolys via ReduceWithPowers); the L₀ division asserts existence. The formula is not decided.",
 		Rule: "one obligation per coordinate and assertion"})
 	registerProp(&propDef{ID: "C05", Rules: withC06(func(cx *Ctx) []Obligation { return append(rulesC05(cx), rulesW3(cx, "C05")...) }), Floor: 30,
@@ -205,10 +205,10 @@ func init() {
 	registerProp(&propDef{ID: "C07", Rules: rulesC07, Floor: 8,
 		Expl: "Narrow structural clauses only: Inverse's product assertion is conditioned on IsZero(x) and the flag derives from it; Reduce forwards the never-reassigned constant RANGE_CHECK_NB_BITS ≥ 144; every reducing method of gl.Chip returns a hint output confined to [0,p) by a must-executed canonical range check. Numerical exactness for all operands is not decided.",
 		Rule: "one obligation per clause / per reducing method of gl.Chip (enumerated from the method set)"})
-	registerProp(&propDef{ID: "C08", Rules: rulesC08, Floor: 2,
-		Expl: "Narrow structural clauses only: InverseExtension must-asserts IsZero(a[0])·IsZero(a[1]) == 0 (zero test over both coordinates); DivExtension passes its divisor itself to InverseExtension on every path. The field identities are not decided.",
+	registerProp(&propDef{ID: "C08", Rules: func(cx *Ctx) []Obligation { return append(rulesC08(cx), rulesC08Widths(cx)...) }, Floor: 10,
+		Expl: "Narrow structural clauses only: InverseExtension must-asserts IsZero(a[0])·IsZero(a[1]) == 0 (zero test over both coordinates); DivExtension passes its divisor itself to InverseExtension on every path; every quotient width that reaches the witnessed reduction (including from the extension API) admits a single result (W1) and the reduction/MulAdd hint discipline holds (R1). The field identities are not decided.",
 		Rule: "one obligation per clause"})
-	registerProp(&propDef{ID: "C09", Rules: func(cx *Ctx) []Obligation { return append(rulesC09(cx), rulesC09Function(cx)...) }, Floor: 8,
+	registerProp(&propDef{ID: "C09", Rules: func(cx *Ctx) []Obligation { return append(append(rulesC09(cx), rulesC09Function(cx)...), ruleSpongeOverwrite(cx)...) }, Floor: 9,
 		Expl: "Narrow structural clauses only: HashNoPad reduces every input (full-range loop) and hands only reduction results to the sponge; the permutation is a function: R1/W1 for every hint site reached from the Goldilocks Poseidon (widths of the s-box reductions); sibling constant tables used by the base and extension implementations agree element-wise and every table constant is < p. Equality with plonky2's Poseidon for all inputs is not decided.",
 		Rule: "one obligation per clause, per reaching width, per table"})
 	registerProp(&propDef{ID: "C06", Rules: rulesC06, Floor: 14,
